@@ -5,7 +5,7 @@
 cd /verif
 for d in ${1:-seeded/C*/}; do
   n=$(basename $d); prop=${n%%-*}
-  targets=$(/venv/bin/python -c "import json,sys; m=json.load(open('$d/meta.json')); print(' '.join(m.get('target_checks', ['$prop'])))" 2>/dev/null || echo $prop)
+  targets=$(/venv/bin/python -c "import json,sys; m=json.load(open('$d/meta.json')); t=m.get('target_checks', ['$prop']); print(' '.join(t if '$prop' in t else ['$prop'] + t))" 2>/dev/null || echo $prop)
   : > $d/matrix.md.tmp
   for c in $targets; do
     [ -f checks/$(echo $c | tr A-Z a-z).py ] || { echo "| $n | $c | (check not built) | |" >> $d/matrix.md.tmp; continue; }
